@@ -1140,3 +1140,110 @@ Check C04_reached_premises : forall hp hpo hd, C03_ReachParts.HostWf hp hpo hd -
         /\ (forall h, Setters.set_host dbg hp hpo hd u h = None <-> dbg = true /\ h = None /\ C04_SetHost.known_c04_1 u = true)
         /\ (forall h, exists r, Setters.set_ip_host dbg hd u h = Some r)).
 Print Assumptions C04_reached_premises.
+
+From RU Require Proofs.C04_Rest Proofs.C04_Origin Proofs.C04_Table Proofs.C16_Origin.
+
+(* Url::origin() / quirks::origin / origin::url_origin, the panic outcome of the model EXACTLY (Proofs/C04_Origin.v): on a
+   well-formed record url_origin panics (url.host().unwrap()) iff the record ITSELF has one of the five tuple schemes
+   (ftp, http, https, ws, wss) and no host - a record wf_b allows and the parser never produces (a special URL always
+   gets a non-empty host); the URLs met in the blob: recursion are parse results, and the origin of a parse result never
+   panics; the model's recursion fuel never runs out (C16_fuel).  Hypothesis HostWf (parse results satisfy wf_b).
+   NOT expressible as a panic outcome: the Rust recursion is on the machine stack - finding F-C04-11 (abort by stack
+   overflow at about 36000 levels of blob: nesting) stays a known class, see C04_linear_statement. *)
+Theorem C04_origin_panic_iff : forall dbg hp ho hd, C03_ReachParts.HostWf hp ho hd ->
+  (forall c u, wf_b u = true ->
+     (Origin.url_origin dbg hp ho hd c u = Origin.OPanic <-> C04_Origin.tuple_no_host_b u = true))
+  /\ (forall c p v, Origin.url_parse dbg hp ho hd p = POk v -> Origin.url_origin dbg hp ho hd c v <> Origin.OPanic)
+  /\ (forall c u, Origin.url_origin dbg hp ho hd c u <> Origin.OFuel).
+Proof. exact (C04_Table.claims_hold C04_Table.P_origin). Qed.
+Check C04_origin_panic_iff : forall dbg hp ho hd, C03_ReachParts.HostWf hp ho hd ->
+  (forall c u, wf_b u = true ->
+     (Origin.url_origin dbg hp ho hd c u = Origin.OPanic <-> C04_Origin.tuple_no_host_b u = true))
+  /\ (forall c p v, Origin.url_parse dbg hp ho hd p = POk v -> Origin.url_origin dbg hp ho hd c v <> Origin.OPanic)
+  /\ (forall c u, Origin.url_origin dbg hp ho hd c u <> Origin.OFuel).
+Print Assumptions C04_origin_panic_iff.
+
+(* the quirks:: module (Proofs/C04_Rest.v): the nine getters on a wf_b record and the nine setters on a wfh record never
+   panic - any argument (set_search: a &str, i.e. scalar values), any host functions, both configurations.  The setters
+   are wrappers over the Url mutators (C04_no_panic_setters / setters2), Parser::parse_host and Parser::parse_port
+   (C04_no_panic_authority_states); set_href is Url::parse (C04_parse_no_base_no_panic). *)
+Theorem C04_no_panic_quirks :
+  (forall dbg u, wf_b u = true ->
+     (exists s, Setters.q_protocol u = Some s) /\ (exists s, Setters.q_username dbg u = Some s)
+     /\ (exists s, Setters.q_password dbg u = Some s) /\ (exists s, Setters.q_host dbg u = Some s)
+     /\ (exists s, Setters.q_hostname u = Some s) /\ (exists s, Setters.q_port dbg u = Some s)
+     /\ (exists s, Setters.q_pathname u = Some s) /\ (exists s, Setters.q_search dbg u = Some s)
+     /\ (exists s, Setters.q_hash dbg u = Some s))
+  /\ (forall dbg hp hpo hd u, C06_Main.wfh u ->
+     (forall v, exists r, Setters.q_set_protocol dbg u v = Some r)
+     /\ (forall v, exists r, Setters.q_set_username dbg u v = Some r)
+     /\ (forall v, exists r, Setters.q_set_password dbg u v = Some r)
+     /\ (forall v, exists r, Setters.q_set_host dbg hp hpo hd u v = Some r)
+     /\ (forall v, exists r, Setters.q_set_hostname dbg hp hpo hd u v = Some r)
+     /\ (forall v, exists r, Setters.q_set_port dbg u v = Some r)
+     /\ (forall v, exists u', Setters.q_set_pathname dbg u v = Some u')
+     /\ (forall v, usv_list v -> exists u', Setters.q_set_search dbg u v = Some u')
+     /\ (forall v, exists u', Setters.q_set_hash dbg u v = Some u')).
+Proof. exact (conj C04_Rest.quirks_getters_total C04_Rest.quirks_setters_total). Qed.
+Check C04_no_panic_quirks :
+  (forall dbg u, wf_b u = true ->
+     (exists s, Setters.q_protocol u = Some s) /\ (exists s, Setters.q_username dbg u = Some s)
+     /\ (exists s, Setters.q_password dbg u = Some s) /\ (exists s, Setters.q_host dbg u = Some s)
+     /\ (exists s, Setters.q_hostname u = Some s) /\ (exists s, Setters.q_port dbg u = Some s)
+     /\ (exists s, Setters.q_pathname u = Some s) /\ (exists s, Setters.q_search dbg u = Some s)
+     /\ (exists s, Setters.q_hash dbg u = Some s))
+  /\ (forall dbg hp hpo hd u, C06_Main.wfh u ->
+     (forall v, exists r, Setters.q_set_protocol dbg u v = Some r)
+     /\ (forall v, exists r, Setters.q_set_username dbg u v = Some r)
+     /\ (forall v, exists r, Setters.q_set_password dbg u v = Some r)
+     /\ (forall v, exists r, Setters.q_set_host dbg hp hpo hd u v = Some r)
+     /\ (forall v, exists r, Setters.q_set_hostname dbg hp hpo hd u v = Some r)
+     /\ (forall v, exists r, Setters.q_set_port dbg u v = Some r)
+     /\ (forall v, exists u', Setters.q_set_pathname dbg u v = Some u')
+     /\ (forall v, usv_list v -> exists u', Setters.q_set_search dbg u v = Some u')
+     /\ (forall v, exists u', Setters.q_set_hash dbg u v = Some u')).
+Print Assumptions C04_no_panic_quirks.
+
+(* "NO PUBLIC FUNCTION PANICS", FUNCTION BY FUNCTION (Proofs/C04_Table.v).  C04_Table.table has one row per entry of the
+   regenerated inventory of the 167 `pub fn`s of the five crates: (crate, name, kind, claim, name of the pinned theorem).
+   C04_Table.claim i is the statement on the Gallina models that decides the rows carrying claim i (36 claims: the
+   theorems of this file and of C03 / C06 / C09 / C13 / C14 / C15 / C17 / C19 / C20, plus new ones for the views,
+   make_relative, the file-path conversions, Origin::new_opaque, uts46::verify_dns_length).  Kinds: KTheorem (no panic under
+   the stated well-formedness premise), KExact (panics exactly in a stated class: iff), KOutside (no panic outside a
+   named known class that has a witness), KByType (plain data / total model function without panic outcome),
+   KDocumented (documented panic on a function without model), KHarness (no model).
+     (1) the key columns of the table ARE the regenerated inventory T_C04_API: a new `pub fn` in /repo breaks this
+         conjunct until a row - a decision - has been added;
+     (2) every claim holds, hence the claim of every row;
+     (3) exactly the KByType / KDocumented / KHarness rows carry the trivial claim;
+     (4) no KByType function has a panic macro of its own in the regenerated panic-site inventory (two listed exceptions);
+     (5) the census: 76 KTheorem, 19 KExact, 17 KOutside, 49 KByType, 2 KDocumented, 4 KHarness. *)
+Theorem C04_no_panic_inventory :
+  map C04_Table.row_key C04_Table.table = T_C04_API
+  /\ ((forall i, C04_Table.claim i) /\ Forall (fun r => C04_Table.claim (C04_Table.r_claim r)) C04_Table.table)
+  /\ forallb (fun r => Bool.eqb (C04_Table.trivial_kind (C04_Table.r_kind r))
+                                (C04_Table.claim_eqb_trivial (C04_Table.r_claim r))) C04_Table.table = true
+  /\ forallb (fun r => negb (C04_Table.kind_eqb (C04_Table.r_kind r) C04_Table.KByType)
+                       || negb (C04_Table.has_panic_macro (C04_Table.r_name r))
+                       || existsb (String.eqb (C04_Table.r_name r)) C04_Table.bytype_exceptions) C04_Table.table = true
+  /\ (length C04_Table.table = 167%nat /\ C04_Table.count_kind C04_Table.KTheorem = 76%nat
+      /\ C04_Table.count_kind C04_Table.KExact = 19%nat /\ C04_Table.count_kind C04_Table.KOutside = 17%nat
+      /\ C04_Table.count_kind C04_Table.KByType = 49%nat /\ C04_Table.count_kind C04_Table.KDocumented = 2%nat
+      /\ C04_Table.count_kind C04_Table.KHarness = 4%nat).
+Proof.
+  exact (conj C04_Table.table_complete (conj (conj C04_Table.claims_hold C04_Table.table_sound)
+        (conj C04_Table.kinds_consistent (conj C04_Table.bytype_no_panic_macro C04_Table.table_counts)))).
+Qed.
+Check C04_no_panic_inventory :
+  map C04_Table.row_key C04_Table.table = T_C04_API
+  /\ ((forall i, C04_Table.claim i) /\ Forall (fun r => C04_Table.claim (C04_Table.r_claim r)) C04_Table.table)
+  /\ forallb (fun r => Bool.eqb (C04_Table.trivial_kind (C04_Table.r_kind r))
+                                (C04_Table.claim_eqb_trivial (C04_Table.r_claim r))) C04_Table.table = true
+  /\ forallb (fun r => negb (C04_Table.kind_eqb (C04_Table.r_kind r) C04_Table.KByType)
+                       || negb (C04_Table.has_panic_macro (C04_Table.r_name r))
+                       || existsb (String.eqb (C04_Table.r_name r)) C04_Table.bytype_exceptions) C04_Table.table = true
+  /\ (length C04_Table.table = 167%nat /\ C04_Table.count_kind C04_Table.KTheorem = 76%nat
+      /\ C04_Table.count_kind C04_Table.KExact = 19%nat /\ C04_Table.count_kind C04_Table.KOutside = 17%nat
+      /\ C04_Table.count_kind C04_Table.KByType = 49%nat /\ C04_Table.count_kind C04_Table.KDocumented = 2%nat
+      /\ C04_Table.count_kind C04_Table.KHarness = 4%nat).
+Print Assumptions C04_no_panic_inventory.
